@@ -227,6 +227,31 @@ CHECKS["C20"] = (
     "DESIGN.md section 3 / C20",
 )
 
+CHECKS["C18"] = (
+    "model-based stateful search: generated legacy operation programs with run-time eligible-operand selection; per-op post-conditions + structural invariants after every step",
+    "Seeded Hypothesis search over programs of the public legacy operations (construction over existing children, "
+    "attach, detach, detach_self, replace of properties / children / sequences, replace_with node or None, "
+    "duplicate, transform visitors and transformers) on attached, detached and stale receivers; operands are "
+    "resolved at run time among eligible ones so that every operation should succeed. After every step the "
+    "docstring post-conditions of the operation and structural invariants over all held nodes are evaluated "
+    "(parent / field / index links both ways, lookup, unique ids, content_id against an independently rebuilt "
+    "copy, ancestors / depth / is_ancestor / calculated xpath against the downward structure). Bounded.",
+    "Trusts Hypothesis and the engine's own reflection (pbt/legacy_engine.py); a documented rejection ends a "
+    "program as inconclusive (C19's subject).",
+    "DESIGN.md section 3 / C18",
+)
+CHECKS["C19"] = (
+    "fault-style stateful search: a successful program prefix followed by operations constructed to be rejected at a drawn point; full before/after snapshot comparison",
+    "Seeded Hypothesis search: a C18 program prefix, then 1-3 operations built to be rejected (duplicate "
+    "children, parent collisions at a drawn child position or inside a stale grandchild, id collisions, "
+    "forbidden replace keys, replace_with parent / type / optionality / attach failures, stale receivers, "
+    "raising or ill-typed transform rules); the call must raise a documented error and the snapshot of every "
+    "held node (attached?, parent identity and position, every field by identity / value, id, original_id, "
+    "content_id) and the lookup table must be unchanged. Fault-enumeration style exploration, bounded.",
+    "Trusts Hypothesis and the snapshot of pbt/legacy_engine.py; a call that succeeds is not a C19 case.",
+    "DESIGN.md section 3 / C19",
+)
+
 NOT_YET = "check not built yet in this snapshot (see DESIGN.md section 9 build order); nothing is claimed"
 
 
